@@ -29,7 +29,10 @@ HDST = os.path.join(CACHE, "harness", "unitfmt")
 WORK = os.path.join(CACHE, "fmt")
 
 ALPHA = ["\n", "\r", "\t", "a", "中", "é"]
-EXTRA = [" ", "\x00", "\x1f", "\x7f", "ß", "∆", "Z", "0", "b"]
+EXTRA = [" ", "\x00", "\x1f", "\x7f", "ß", "∆", "Z", "0", "b",
+         # display-width classes: East-Asian-ambiguous (width 1, width_cjk 2), combining (0), emoji (2)
+         "§", "—", "°", "×", "\u0301", "\U0001F600"]
+WIDTHS = ["a", "§", "中", "\u0301", "\n"]
 
 # decidable classes of the candidate findings: name -> (classifier(kind, sb, a, b), what)
 CLASSES = {
@@ -94,7 +97,9 @@ def oracle_items(kind, sb, a, b, W):
         items += [row(i) for i in idx]
     else:
         items += [row(F), row(F + 1), ("ell",), row(L - 1), row(L)]
-    items.append(("mark", wd(lines[L][:b - offs[L]]) - 1, "^"))
+    # the last cell of the last character; a zero-width character (a combining mark) is drawn in the cell of what precedes
+    # it, and in cell 0 when nothing does
+    items.append(("mark", max(0, wd(lines[L][:b - offs[L]]) - 1), "^"))
     return items
 
 
@@ -455,6 +460,8 @@ def check(ctx):
     maxlen = 5 if quick else 6
     lines = []
     for s in all_strings(ALPHA, maxlen):
+        lines += cases_of(s)
+    for s in all_strings(WIDTHS, 4 if quick else 5):      # every mix of display-width classes on one or two lines
         lines += cases_of(s)
     n_exh = len(lines)
     lines += multi_line_corpus()
